@@ -347,6 +347,13 @@ class Model:
             self.cs_drive(d)
         elif t == C('MSG_CS_ACCESSORY') and len(d) >= 4:
             self.cs_accessory(addr, d)
+        elif t == C('MSG_VENDOR_GET') and len(d) >= 1:
+            # a reverser state request marks the state as unknown until the answer arrives
+            b = self.board_at(addr)
+            name = bytes(d[1:1 + d[0]])
+            for r in (b or {}).get('reversers') or []:
+                if r['cv'].encode() == name:
+                    self.st['reversers'][r['id']]['value'] = 2
 
     def set_dcc_state_id(self, acc_id, aspect_id):
         for kind in ('points_dcc', 'signals_dcc'):
